@@ -48,6 +48,8 @@ ASSUMPTIONS = ['hash order pinned with PYTHONHASHSEED=0 (determinism self-test '
                'repeats under another hash seed)']
 
 PROBES = ['pa.ma.f', 'pb.ma.f', 'ma.g', 'h', 'q.Zed', 'q.zed', 'r.zed']
+# registered in the middle of the history: makes the short selectors 'g' and 'pa.ma.f' insufficient afterwards
+LATE_PROBES = ['mb.g', 'xx.pa.ma.f']
 
 
 class Mode(enum.IntEnum):
@@ -100,9 +102,12 @@ def gen(rng, tier):
   indent = rng.randint(0, 8)
   case = {'binds': binds, 'macros': macros, 'order2': order2,
           'indent': indent, 'width': rng.randint(indent + 1, 120),
-          'bad_ops': [rng.choice(['bind_unknown', 'parse_syntax', 'call_fail'])
+          'bad_ops': [rng.choice(['bind_unknown', 'parse_syntax', 'call_fail',
+                                  'skip_import'])
                       for _ in range(rng.randint(0, 3))],
           'bad_at': rng.randint(0, max(len(binds), 1))}
+  if rng.random() < 0.4:
+    case['late_at'] = rng.randint(1, max(len(binds), 1))
   if rng.random() < 0.25:
     case['dyn'] = {'seed': rng.getrandbits(32)}
   return case
@@ -177,8 +182,19 @@ def run(case):
   def hook(name, named, args, kwargs, self_):
     return dict(named)
 
-  def setup():
+  def register_one(full):
+    mod, _, name = full.rpartition('.')
+    pyname = 'fn_' + full.replace('.', '_')
+    obj, _ = probes.compile_probe(
+        {'name': pyname, 'kind': 'fn',
+         'params': [{'n': p, 'k': 'def', 'd': 'dflt'} for p in 'abc']}, hook)
+    gin.configurable(name, module=mod or 'rootmod')(obj)
+
+  def setup(late=True):
     world.reset()
+    if late:
+      for full in LATE_PROBES:
+        register_one(full)
     for full in PROBES:
       mod, _, name = full.rpartition('.')
       pyname = 'fn_' + full.replace('.', '_')
@@ -195,6 +211,8 @@ def run(case):
   def cs():
     return gin.config_str(max_line_length=W, continuation_indent=I)
 
+  late_done = [False]
+
   def apply(order, record_texts):
     texts = []
     for idx, m in enumerate(case['macros']):
@@ -205,10 +223,17 @@ def run(case):
       else:
         gin.bind_parameter((m['name'], 'gin.macro', 'value'), obj)
     for pos, bi in enumerate(order):
+      if record_texts and pos == case.get('late_at', -1):
+        # same-named configurables appear while bindings already exist
+        for full in LATE_PROBES:
+          register_one(full)
+        late_done[0] = True
       if record_texts and pos == case['bad_at']:
         for bad in case['bad_ops']:
           try:
-            if bad == 'bind_unknown':
+            if bad == 'skip_import':
+              gin.parse_config('import no_such_module_c06\n', skip_unknown=True)
+            elif bad == 'bind_unknown':
               gin.bind_parameter('h.nope', 1)
             elif bad == 'parse_syntax':
               gin.parse_config('h.a = [1,\nh.b = 2')
@@ -216,7 +241,7 @@ def run(case):
               gin.get_configurable('h')(1, 2, 3, 4, 5)
           except Exception:  # pylint: disable=broad-except
             pass
-          texts.append(cs())
+          texts.append((cs(), late_done[0]))
       b = case['binds'][bi]
       val = pool[b['vi']]
       obj, text, rep = _materialise(val)
@@ -229,13 +254,16 @@ def run(case):
       else:
         gin.bind_parameter(key, obj)
       if record_texts:
-        texts.append(cs())
+        texts.append((cs(), late_done[0]))
     return texts
 
   # ---- world A -------------------------------------------------------------------
-  setup()
+  setup(late='late_at' not in case)
   try:
     texts = apply(list(range(len(case['binds']))), True)
+    if 'late_at' in case and case['late_at'] >= len(case['binds']):
+      for full in LATE_PROBES:
+        register_one(full)
     S = cs()
   except Exception as e:  # pylint: disable=broad-except
     v('C06.config_str_available', [type(e).__name__],
@@ -285,8 +313,10 @@ def run(case):
       v('C06.sections_sorted', [],
         'sections are not in canonical order: %r' % headers)
     # (1) every text taken along the way parses in a reset world
-    for t in dict.fromkeys(texts + [S]):
-      setup()
+    for t, with_late in dict.fromkeys(texts + [(S, True)]):
+      # a text is re-parsed against the registrations that existed when it was
+      # produced
+      setup(late=with_late or 'late_at' not in case)
       stats['texts_checked'] += 1
       try:
         gin.parse_config(t)
